@@ -218,6 +218,8 @@ class Context:
                 for process in status.processes.values():
                     if status.identifier in process.running_identifiers:
                         process.invalidate_identifier(status.identifier)
+                        # no failure is declared but the application state has to be evaluated again
+                        self.applications[process.application_name].update()
         # trigger the corresponding Supvisors events
         self.publish_process_failures(failed_processes)
         #  return the identifiers of all invalidated Supvisors instances and the processes declared in failure
